@@ -149,6 +149,9 @@ type plan struct {
 	// Edit (when not 0): after the start state was reached, the module is edited so that the numbers of
 	// unnamed locals move (editAfterNumbering with this seed), and is not printed again before the goroutines start
 	Edit uint64 `json:",omitempty"`
+	// SharedObjects: the constructed module keeps equal constants and equal literal types as one object each
+	// (emit.ModuleShared); a replay, which starts from the text, gives every use its own object
+	SharedObjects bool `json:",omitempty"`
 	// Constructed: the module came from the API, not the parser; a replay parses the text and then
 	// takes the IDs of unnamed globals and locals, and of the metadata definitions listed in
 	// Unnumber, back to "not yet assigned".
@@ -601,6 +604,12 @@ func TestConstructedModules(t *testing.T) {
 		// one case in three uses the API naively: address spaces assigned after construction, cached types left as they were
 		stale := rapid.IntRange(0, 2).Draw(rt, "staleTypes") == 0
 		lateAS := stale && rapid.Bool().Draw(rt, "lateAddrSpaces")
+		// one careful case in three keeps equal constants and equal literal types as one object each: many printers
+		// then read (and must only read) the same constant object from several places at once
+		sharedObjects := !stale && rapid.IntRange(0, 2).Draw(rt, "sharedObjects") == 0
+		if sharedObjects {
+			hx.Hist("constructed/shared_constant_and_type_objects")
+		}
 		unnumber := map[int]bool{}
 		var unl []int
 		for i := range am_.MDs {
@@ -616,7 +625,13 @@ func TestConstructedModules(t *testing.T) {
 		}
 		mk := func() *ir.Module {
 			var m *ir.Module
-			if p := lx.Guard(func() { m, _ = emit.ModuleWithLate(am_, stale, lateAS) }); p != nil {
+			if p := lx.Guard(func() {
+				if sharedObjects {
+					m, _ = emit.ModuleShared(am_)
+				} else {
+					m, _ = emit.ModuleWithLate(am_, stale, lateAS)
+				}
+			}); p != nil {
 				return nil
 			}
 			for i, d := range m.MetadataDefs {
@@ -629,6 +644,7 @@ func TestConstructedModules(t *testing.T) {
 		}
 		pl := genPlan(rt)
 		pl.Constructed, pl.Unnumber, pl.Stale, pl.MDRotate, pl.LateAS = true, unl, stale, mdRotate, lateAS
+		pl.SharedObjects = sharedObjects
 		// the never-printed state is what a constructed module adds: start there three times out of four
 		if pl.Printed && rapid.IntRange(0, 1).Draw(rt, "unprinted") == 0 {
 			pl.Printed = false
